@@ -95,6 +95,15 @@ def spec_hash():
     return _spec_hash
 
 
+def dep_key(*paths):
+    """identity of the cached inputs a stage reads (tour scripts, segment files of a dump stage):
+    their paths contain the key of the stage that produced them, and a stage that stores or
+    re-reads such a path must be recomputed when the producer's key (seed, specification,
+    Overhead) changes - otherwise a cached result points into a directory the producer has
+    already replaced"""
+    return hashlib.sha256("\0".join(paths).encode()).hexdigest()[:8]
+
+
 class Lock:
     def __init__(self, name):
         os.makedirs(CACHE, exist_ok=True)
@@ -433,7 +442,7 @@ def stage_replay(tier, dump=None, name="replay", universe="3"):
                             "crashed": crashed, "returncode": p.returncode, "stderr": err[-2000:]})
         return {"configs": results, "script": script}
     return cached(name + "-" + tier, source_hash() + "-" + spec_hash() + "-" +
-                  os.environ.get("VERIF_SEED", "0"), go)
+                  os.environ.get("VERIF_SEED", "0") + "-" + dep_key(script), go)
 
 
 SHAPES = ("plainkey", "plainval", "padded")
@@ -500,7 +509,8 @@ def stage_shapes(tier):
                             "hasher": h, "keyform": k, "summary": summ, "mismatches": read_ndjson(mm),
                             "crashed": crashed, "returncode": p.returncode, "stderr": err[-2000:]})
         return {"facts": facts, "configs": results}
-    return cached("shapes-" + tier, source_hash() + "-" + spec_hash() + "-" + str(info()["overhead"]), go)
+    return cached("shapes-" + tier, source_hash() + "-" + spec_hash() + "-" + str(info()["overhead"]) + "-" +
+                  dep_key(*[dump["script"] for _, dump, _ in dumps]), go)
 
 
 def shapes_into(prop, tier, fnd, cov):
@@ -583,7 +593,7 @@ def stage_segments(tier, segfile, name, universe="3", configs=None):
     with open(segfile, "rb") as fh:
         seg_hash = hashlib.sha256(fh.read()).hexdigest()[:10]
     return cached(name + "-" + tier, source_hash() + "-" + spec_hash() + "-" + seg_hash + "-" +
-                  os.environ.get("VERIF_SEED", "0"), go)
+                  os.environ.get("VERIF_SEED", "0") + "-" + dep_key(segfile), go)
 
 
 def trace_context(events, lines):
@@ -1122,7 +1132,7 @@ def stage_asan(tier, script, segfiles=(), name="asan"):
             jobs.append(one("segments", sf, ["--segments", sf, "--events", os.devnull]))
         return {"available": True, "runs": run_parallel(jobs, 4)}
     return cached(name + "-" + tier, source_hash() + "-" + spec_hash() + "-" +
-                  os.environ.get("VERIF_SEED", "0"), go)
+                  os.environ.get("VERIF_SEED", "0") + "-" + dep_key(script, *segfiles), go)
 
 
 def stage_roguard(tier, dump, name="roguard"):
@@ -1157,7 +1167,7 @@ def stage_roguard(tier, dump, name="roguard"):
         cfgs = [("const", "owned"), ("default", "borrowed")]
         return {"runs": run_parallel([one(i, hk) for i, hk in enumerate(cfgs)], 2), "script": script}
     return cached(name + "-" + tier, source_hash() + "-" + spec_hash() + "-" +
-                  os.environ.get("VERIF_SEED", "0"), go)
+                  os.environ.get("VERIF_SEED", "0") + "-" + dep_key(script), go)
 
 
 def roguard_into(prop, res, fnd, cov):
